@@ -562,3 +562,97 @@ def exact_(x):
     if isinstance(x, Poly) and x.is_const():
         return x.const_value()
     return x
+
+
+def adaptive_bookkeeping_rule(ctx):
+    """R18.17: the adaptive strain-path rule refines element by element: elements that stop on different Clenshaw-Curtis
+    levels.  __AdaptiveTimeQuadratureStressTensor is interpreted on three one-point elements with DIFFERENT strain paths
+    and a cubic stand-in energy W(C) = C^3 (S = 6 C^2, dS/de = 24 C; tol = 0): elements 0 and 2 do not move (accepted on
+    level 1), element 1 moves (its midpoint rule has an energy defect, Simpson is exact: accepted on level 2).  Each
+    element's averaged stress AND tangent must be the rule of ITS level applied to ITS OWN strain path:
+    dWde[e] = sum_k w_k S(C_e(s_k)),  d2Wde[e] = sum_k (w_k s_k / coefK) dS/de(C_e(s_k))."""
+    from types import SimpleNamespace
+
+    from ..xeval import Interp, FuncInfo
+    from ..femchain import fe_hook_full, XFe
+
+    repo = ctx.repo
+    f = repo.func(f"{NL}.__AdaptiveTimeQuadratureStressTensor")
+    r = ctx.rule("R18.17", "adaptive strain-path quadrature: each element's averaged stress and tangent are its accepted rule applied to its own strain path (elements stopping on different levels)", min_instances=1)
+    r.instance(fn=f.qualname)
+    Ne = 3
+    C0 = [Q(2), Q(3), Q(5)]
+    C1 = [Q(2), Q(4), Q(5)]  # only element 1 moves
+    col = lambda vals: XFe((len(vals), 1, 1, 1), list(vals))
+
+    class State:
+        _xeval_open = True
+
+        def __init__(self, C):
+            self.C = C
+            self.groupElem = group
+            self.matrixType = "mt"
+
+        def Compute_C(self):
+            return col(self.C)
+
+        def Compute_GreenLagrange(self):
+            return col([(c - 1) / 2 for c in self.C])
+
+    class Holder:
+        _xeval_open = True
+
+        def __init__(self, C):
+            self.C = XArray.from_nested(C)
+
+    group = SimpleNamespace(dim=1, Get_weightedJacobian_e_pg=lambda mt=None: XFe((Ne, 1), [Q(1)] * Ne))
+    sn, s1 = State(C0), State(C1)
+
+    def values(h):
+        c = h.C if isinstance(h, Holder) else col(h.C)
+        return [c[e, 0, 0, 0] for e in range(c.shape[0])]
+
+    material = SimpleNamespace(
+        Compute_W=lambda st: XFe((len(values(st)), 1), [c ** 3 for c in values(st)]),
+        Compute_dWde=lambda h: XFe((len(values(h)), 1, 1), [6 * c * c for c in values(h)]),
+        Compute_d2Wde=lambda h: XFe((len(values(h)), 1, 1, 1), [24 * c for c in values(h)]),
+    )
+
+    def hook(fn, args, kwargs):
+        fi = fn if isinstance(fn, FuncInfo) else getattr(fn, "finfo", None)
+        if isinstance(fi, FuncInfo) and fi.name == "_sliced":
+            return Holder(args[-1])
+        if isinstance(fi, FuncInfo) and fi.name == "Project_matrix_to_vector":
+            a = XArray.from_nested(args[0])
+            return XFe(a.shape[:2] + (1,), list(a.data))
+        return fe_hook_full(fn, args, kwargs)
+
+    I = Interp(repo, max_steps=20_000_000)
+    I.call_hook = hook
+    coefK = Q(1, 2)
+    try:
+        dW_q, d2W_q, npts = I.call_function(f, [material, sn, s1, coefK, Q(0), 9])
+    except XRaise as e:
+        r.fail(f.qualname, "adaptive-bookkeeping", f.file, f.lineno, "__AdaptiveTimeQuadratureStressTensor", f"raises {e}")
+        return
+    dW_q, d2W_q, npts = XArray.from_nested(dW_q), XArray.from_nested(d2W_q), [int(exact_(x)) for x in XArray.from_nested(npts).data]
+    rules = {1: ([Q(1, 2)], [Q(1)]), 3: ([Q(0), Q(1, 2), Q(1)], [Q(1, 6), Q(2, 3), Q(1, 6)])}
+    bad = None
+    want_levels = [1, 3, 1]
+    if npts != want_levels:
+        bad = f"accepted point counts {npts}, expected {want_levels} (elements 0 and 2 do not move; element 1: the midpoint rule has an energy defect, Simpson is exact for the cubic energy)"
+    else:
+        for e in range(Ne):
+            nodes, weights = rules[npts[e]]
+            path = lambda s, e=e: C0[e] + s * (C1[e] - C0[e])
+            wantS = sum((w * 6 * path(s) ** 2 for s, w in zip(nodes, weights)), Q(0))
+            wantT = sum((w * s / coefK * 24 * path(s) for s, w in zip(nodes, weights) if s), Q(0))
+            gotS, gotT = exact_(dW_q[e, 0, 0]), exact_(d2W_q[e, 0, 0, 0])
+            if bad is None and not is_zero(Poly.of(gotS) - wantS):
+                bad = f"element {e} (level {npts[e]}): averaged stress {gotS}, its own path gives {wantS}"
+            if bad is None and not is_zero(Poly.of(gotT) - wantT):
+                bad = f"element {e} (level {npts[e]}): tangent {gotT}, the rule applied to its own strain path gives {wantT} (the value belongs to another element's path: global element numbers and rows of the still-active block were mixed up)"
+    if bad:
+        r.fail(f.qualname, "adaptive-bookkeeping", f.file, f.lineno, "__AdaptiveTimeQuadratureStressTensor", f"three elements, strain C: (2, 3, 5) -> (2, 4, 5), W = C^3, tol = 0: {bad}: coefK * K_e is no longer the derivative of the residual")
+    else:
+        r.ok("levels (1, 3, 1): stress and tangent of each element from its own path")
